@@ -220,6 +220,30 @@ def check_truncated_twin(res, N0, levels, leaf, chain_only=False):
                     res.deviation("lift_over_to_first_ancestor_of_type", dict(which=nm, **c), lib.canon_loc(o[1]) if o[0] == "ok" else o[1], expP1, sig="twin-t1-lift")
 
 
+def check_ancestor_alias(res):
+    """two hierarchies of SEQUENCE-LESS parents that differ only in depth (the longer one has an extra top ancestor), a
+    location-carrying Parent built on each, in both build orders: the shorter one has no such ancestor, whatever was
+    built before"""
+    from vlib import bootstrap
+
+    for bl in (((5, 10),), ((1, 3), (5, 8))):
+        for strand in "+-":
+            for order in ("long-first", "short-first"):
+                bootstrap.clear_global_caches()
+                got = {}
+                for which in (("long", "short") if order == "long-first" else ("short", "long")):
+                    top = Parent(id="chr1", sequence_type="chromosome", parent=Parent(id="asm", sequence_type="assembly")) if which == "long" else Parent(id="chr1", sequence_type="chromosome")
+                    mid = Parent(location=lib.mk_loc(bl, strand, top))
+                    got[which] = lib.outcome(mid.location.has_ancestor_of_type, "assembly")
+                res.trans()
+                res.state(("alias", bl, strand, order))
+                res.nontriv(("alias", bl, strand, order))
+                res.note("alias", order)
+                if got["long"] != ("ok", True) or got["short"] != ("ok", False):
+                    res.deviation("has_ancestor_of_type", dict(kind="alias", blocks=[list(b) for b in bl], strand=strand, order=order),
+                                  [got["long"][1], got["short"][1]], [True, False], sig="ancestor-alias")
+
+
 def check_decoy(res, N0, levels, leaf):
     """explicit parent placement wins over the placement remembered by the level's Sequence object"""
     G0 = LETTERS[:N0]
@@ -422,6 +446,8 @@ def run_shard(shard):
             check_truncated_twin(res, w["N0"] - 1, list(levels), leaf)
             check_truncated_twin(res, w["N0"] - 1, list(levels), leaf, chain_only=True)
             check_decoy(res, w["N0"] - 1, list(levels), leaf)
+        if shard["i"] == 0:
+            check_ancestor_alias(res)
         # overlapping leaves below one or two levels
         idx = 0
         N0 = w["N0"]
@@ -504,6 +530,14 @@ def run_shard(shard):
 
 
 def replay(case):
+    if case.get("kind") == "alias":
+        res = ShardResult()
+        check_ancestor_alias(res)
+        return [d for d in res.deviations if d["case"] == case]
+    return _replay(case)
+
+
+def _replay(case):
     res = ShardResult()
     if case["kind"] in ("hier", "twin", "ovl", "decoy"):
         levels = tuple((tuple(tuple(b) for b in bl), s) for bl, s in case["levels"])
@@ -521,6 +555,12 @@ def replay(case):
     return devs or res.deviations
 
 
+def _m_ancestor_alias(d):
+    # own class: the id-only, sequence-less twin hierarchies of check_ancestor_alias; own shape: BOTH twins give the answer of
+    # the one that was built first (long first: [True, True]; short first: [False, False])
+    return d["sig"] == "ancestor-alias" and d["case"].get("kind") == "alias" and d["observed"] == ([True, True] if d["case"]["order"] == "long-first" else [False, False])
+
+
 def _m_foreign_chromosome(d):
     # the defect's own request (a location with an explicit chromosome parent of another id, lifted onto a chunk) and shape
     # (answered with chunk coordinates as if it were on the chunk's chromosome)
@@ -533,4 +573,4 @@ def _m_lift_seq_noncontig(d):
     return d["sig"] == "lift-sequence-raises" and d["observed"] == "ValueError" and d.get("intermediate_noncontiguous") is True
 
 
-MATCHERS = {"c04_lift_seq_noncontig": _m_lift_seq_noncontig, "c04_foreign_chromosome": _m_foreign_chromosome}
+MATCHERS = {"c04_lift_seq_noncontig": _m_lift_seq_noncontig, "c04_foreign_chromosome": _m_foreign_chromosome, "c04_ancestor_alias": _m_ancestor_alias}
